@@ -178,27 +178,45 @@ MARK_L = "__C11_EDIT_BEGIN__"
 MARK_R = "__C11_EDIT_END__"
 
 
+_PIECES = {}
+_SNIPPET_TOKS = {}
+
+
+def _pieces(tmpl):
+    """(token lists of the text between holes, token lists of the hole defaults), tokenised once"""
+    if tmpl not in _PIECES:
+        texts = []
+        defaults = []
+        pos = 0
+        for h in holes_of(tmpl):
+            texts.append(tokenize(tmpl[pos:h.start]))
+            defaults.append(tokenize(h.default))
+            pos = h.end
+        texts.append(tokenize(tmpl[pos:]))
+        _PIECES[tmpl] = (texts, defaults)
+    return _PIECES[tmpl]
+
+
 def fill(tmpl, hole_index=None, snippet=None):
     """Token list of the template with defaults everywhere except hole `hole_index`
-    (filled with `snippet`).  Returns (lexemes, (first, last+1) token range of the snippet or None)."""
+    (filled with `snippet`).  Returns (lexemes, (first, last+1) token range of the snippet or None).
+    Holes are always separated from their surroundings by blanks, so tokenising piecewise
+    equals tokenising the filled text."""
+    texts, defaults = _pieces(tmpl)
     out = []
-    pos = 0
-    for k, h in enumerate(holes_of(tmpl)):
-        out.append(tmpl[pos:h.start])
-        if k == hole_index:
-            out.append(" %s %s %s " % (MARK_L, snippet, MARK_R))
-        else:
-            out.append(" " + h.default + " ")
-        pos = h.end
-    out.append(tmpl[pos:])
-    toks = tokenize("".join(out))
     rng = None
-    if hole_index is not None:
-        a = toks.index(MARK_L)
-        b = toks.index(MARK_R)
-        toks = toks[:a] + toks[a + 1:b] + toks[b + 1:]
-        rng = (a, b - 1)
-    return toks, rng
+    for k, d in enumerate(defaults):
+        out += texts[k]
+        if k == hole_index:
+            st = _SNIPPET_TOKS.get(snippet)
+            if st is None:
+                st = _SNIPPET_TOKS[snippet] = tokenize(snippet)
+            rng = (len(out), len(out) + len(st))
+            out += st
+        else:
+            out += d
+    out += texts[-1]
+    return out, rng
 
 
 # ------------------------------------------------------------------ rule-breaking snippets
